@@ -150,8 +150,12 @@ func strFormat(L *LState) int {
 func strGsub(L *LState) int {
 	str := L.CheckString(1)
 	pat := L.CheckString(2)
-	L.CheckTypes(3, LTString, LTTable, LTFunction)
+	L.CheckTypes(3, LTString, LTNumber, LTTable, LTFunction)
 	repl := L.CheckAny(3)
+	if num, ok := repl.(LNumber); ok {
+		// a number is a replacement string, as everywhere a string is expected
+		repl = LString(num.String())
+	}
 	limit := L.OptInt(4, -1)
 	if limit < 0 && L.Get(4) != LNil {
 		// an explicit negative count allows no replacement; only the missing one is unlimited
